@@ -33,9 +33,12 @@ class FinderRecorder:
         self.cls = PeriodicFinder
         self.orig = PeriodicFinder.get_region
         self.calls = []
+        self.system = None
         rec = self
 
         def wrapped(finder, system, seed_index, *a, **kw):
+            if rec.system is None:
+                rec.system = system.copy()          # the structure as the entry of get_clusters prepared it
             out = rec.orig(finder, system, seed_index, *a, **kw)
             region, mask = out if kw.get("return_mask") else (out, None)
             rec.calls.append({"seed": int(seed_index), "basis": None if region is None else sorted(int(i) for i in region.get_basis_indices()),
@@ -138,6 +141,9 @@ def _finish(a, rng, kind, max_atoms, keep_pbc=False):
         a.set_positions(a.get_positions() + sh @ np.array(a.get_cell()))      # unwrapped positions
     if rng.random() < 0.5:
         a = a[rng.permutation(len(a))]
+    if rng.random() < 0.3:
+        v = rng.normal(size=3)
+        a.translate(v / np.linalg.norm(v) * rng.uniform(1.0, 15.0))      # rigid translation: atoms may leave the box entirely
     return a, kind
 
 
@@ -228,6 +234,8 @@ class ProtoRecorder:
         from matid.utils.exceptions import MatIDError
         self.G, self.PF = G, PeriodicFinder
         self.records = []
+        self.adaptive = []
+        self.max_adaptive = 400
         self.cur = None
         rec = self
         self.orig = {n: getattr(PeriodicFinder, n) for n in ("_find_proto_cell", "_find_best_basis", "_find_graphs", "_find_proto_cell_3d", "_find_proto_cell_2d")}
@@ -245,10 +253,39 @@ class ProtoRecorder:
                 rec.cur["seedInGraph"] = out[1] is not None
             return out
 
-        def cell3(finder, *a, **k):
-            out = rec.orig["_find_proto_cell_3d"](finder, *a, **k)
+        def cell3(finder, seed_nodes, best_spans, system, group_data_pbc, seed_group_index, adjacency_add, adjacency_sub, pos_tol):
+            # capture the adaptive cells: they are the `basis` argument of get_positions_within_basis, called once per distinct seed atom
+            captured = []
+            orig_pwb = G.get_positions_within_basis
+
+            def pwb(system_, basis, origin, tolerance, *a2, **k2):
+                captured.append(np.array(basis, dtype=float).copy())
+                return orig_pwb(system_, basis, origin, tolerance, *a2, **k2)
+            G.get_positions_within_basis = pwb
+            try:
+                out = rec.orig["_find_proto_cell_3d"](finder, seed_nodes, best_spans, system, group_data_pbc, seed_group_index, adjacency_add, adjacency_sub, pos_tol)
+            finally:
+                G.get_positions_within_basis = orig_pwb
             if rec.cur is not None:
                 rec.cur["cellFound"] = out[0] is not None
+            if len(rec.adaptive) < rec.max_adaptive:
+                pos = system.get_positions()
+                cell = np.array(system.get_cell())
+                seen, k = set(), 0
+                for node in seed_nodes:
+                    if node[0] in seen:
+                        continue
+                    seen.add(node[0])
+                    if k >= len(captured):
+                        break
+                    for ib in range(3):
+                        add = adjacency_add[ib].get(node, []) if hasattr(adjacency_add[ib], "get") else []
+                        sub = adjacency_sub[ib].get(node, []) if hasattr(adjacency_sub[ib], "get") else []
+                        rec.adaptive.append({"cell": cell, "idx": int(node[0]), "pNode": pos[node[0]].copy(), "fNode": tuple(int(v) for v in node[1]),
+                                             "add": None if not add else (int(add[0][0]), pos[add[0][0]].copy(), tuple(int(v) for v in add[0][1])),
+                                             "sub": None if not sub else (int(sub[0][0]), pos[sub[0][0]].copy(), tuple(int(v) for v in sub[0][1])),
+                                             "span": np.array(best_spans[ib], dtype=float), "real": captured[k][ib].copy()})
+                    k += 1
             return out
 
         def cell2(finder, *a, **k):
@@ -348,3 +385,11 @@ def proto_line(r):
     seed = r["seedInGraph"] if r["seedInGraph"] is not None else False
     found = r["cellFound"] if r["cellFound"] is not None else False
     return "protodecide %d %d %s %s %s %d %d %s %s %s %s %s" % (tot, dim, b(seed), b(found), d3, n_per, n_sel, b(too_long), d2, d2r, b(too_thick), b(overlap))
+
+
+def adaptive_line(r):
+    from geom_common import fmt_vecs
+    def nb(t):
+        return "-" if t is None else "%d:%s:%d,%d,%d" % (t[0], fmt_vecs(t[1]), t[2][0], t[2][1], t[2][2])
+    return "adaptcell %s %d %s %d,%d,%d %s %s %s" % (fmt_vecs(r["cell"]), r["idx"], fmt_vecs(r["pNode"]), r["fNode"][0], r["fNode"][1], r["fNode"][2],
+                                                      nb(r["add"]), nb(r["sub"]), fmt_vecs(r["span"]))
